@@ -84,7 +84,7 @@ def splitLines : Str → List Str
     `libgen.h`: the POSIX one – trailing slashes removed, last component). -/
 def basename (p : Str) : Str :=
   let q := dropLastWhile (· == SLASH) p
-  if q.isEmpty then (if p.isEmpty then bs "." else [SLASH])
+  if q.isEmpty then (if p.isEmpty then [0x2e] /- "." -/ else [SLASH])
   else (q.reverse.takeWhile (· != SLASH)).reverse
 
 end Econf
